@@ -158,6 +158,18 @@ Definition run_gen (params : list Z) (rows : list (list Z)) : list (list Z) :=
   | None => [[-2]]
   end.
 
+Definition ffi_safe_fwd (c : cty) : bool :=
+  match c with CResultC _ e => negb (e =? 14) | _ => true end.
+
+(* model id 103: the FFI-safety verdict of the whole vtable of a trait (compared with rustc's improper_ctypes lints) *)
+Definition trait_ffi_safe (t : trait_def) : bool :=
+  forallb (fun g => forallb ffi_safe_fwd (ir_cargs g) && ffi_safe_fwd (ir_cret g)) (gen_trait t).
+Definition run_ffi (params : list Z) (rows : list (list Z)) : list (list Z) :=
+  match dec_methods rows with
+  | Some ms => [[bz (trait_ffi_safe (mkt (match params with p :: _ => negb (p =? 0) | [] => false end) ms))]]
+  | None => [[-2]]
+  end.
+
 (* ---- meaning: values crossing the boundary ------------------------------------------------------------------ *)
 (* what a trait argument / result is on the Rust side ... *)
 Inductive rval :=
@@ -302,8 +314,4 @@ Definition dispatch (glue : list irm) (ms : list method) (k : nat) (vs : list rv
   end.
 
 (* FFI-safety of a C type by rustc's improper_ctypes rules (for the forms that occur) *)
-Definition ffi_safe (c : cty) : bool :=
-  match c with
-  | CResultC _ e => negb (e =? 14)                 (* CResult<T, std::io::Error>: the error type has no C repr *)
-  | _ => true
-  end.
+Definition ffi_safe (c : cty) : bool := ffi_safe_fwd c.   (* CResult<T, std::io::Error>: the error type has no C repr *)
